@@ -37,16 +37,21 @@ def macMatch (c : PClient) (ls : Leases) (a : Bytes) : Bool :=
   | some m => c.macs.contains m
   | none => false
 
-/-- The clients identified at the strongest level present. -/
-def ownersAt (cs : List PClient) (ls : Leases) (cid a : Bytes) : List PClient :=
-  let l1 := cs.filter (cidMatch · cid)
-  if !l1.isEmpty then l1 else
+/-- The clients identified by the address at the strongest level present: exact
+address, else narrowest containing subnet (ties: lowest address), else MAC of
+the DHCP lease. -/
+def ownersByAddr (cs : List PClient) (ls : Leases) (a : Bytes) : List PClient :=
   let l2 := cs.filter (·.ips.contains a)
   if !l2.isEmpty then l2 else
   let nets := netCands cs a
   if !nets.isEmpty then
     (nets.filter (fun x => nets.all (fun y => !y.1.before x.1))).map (·.2)
   else cs.filter (macMatch · ls a)
+
+/-- The clients identified at the strongest level present. -/
+def ownersAt (cs : List PClient) (ls : Leases) (cid a : Bytes) : List PClient :=
+  let l1 := cs.filter (cidMatch · cid)
+  if !l1.isEmpty then l1 else ownersByAddr cs ls a
 
 def fromIgnoredLog (c : Conf) (cid a : Bytes) : Bool :=
   let o := ownersAt c.clients c.leases cid a
@@ -153,6 +158,18 @@ def Shadow.update (sh : Shadow) : Out → Shadow
   | .stores mem sc sd => { sh with mem := mem, sc := sc, sd := sd }
   | .flushed mem file => { sh with mem := mem, file := file }
   | _ => sh
+
+/-- Every step of the model's run from `s` passes the monitor (evaluated on the
+model's own stores). -/
+def monitoredRun : State → List Op → Bool
+  | _, [] => true
+  | s, op :: rest => specOK s.conf s.shadow op (step s op).2 && monitoredRun (step s op).1 rest
+
+/-- `e` is the record of the query `q` processed in state `s`, where `q` was
+neither for an ignored name nor from an ignored client. -/
+def RecordedBy (s : State) (q : Query) (e : Entry) : Prop :=
+  e = logEntry s.conf q ∧ nameIgnoredLog s.conf q.name = false ∧
+    fromIgnoredLog s.conf q.cid (canon q.addr) = false
 
 /-- A query as the server can receive it: `netip.Addr.AsSlice` has 4 or 16 bytes. -/
 def Op.valid : Op → Bool
